@@ -45,6 +45,10 @@ def run(ctx):
     r55(ctx, m)
     r56(ctx)
     r57(ctx, m)
+    from . import c08 as _c08
+    _c08.r87(ctx, ctx.repo['util'], 'R5.8')
+    from . import c04 as _c04
+    _c04.r42(ctx, ctx.repo['writer'])
     # the same predicate is evaluated row-wise when row filtering is on (shared with C13)
     from . import c13
     c13.r131_132(ctx, m)
